@@ -1,30 +1,76 @@
 /-
 C02 — every counting algorithm returns the same value for the same x.
-All exposed algorithms evaluate pi(x) = phi(x, a) + a - 1 - P2 (- P3) with phi computed by a leaf
-decomposition; the theorems below are the part of that common core that is proved here
-(the per-algorithm statements are added as the spec library PcProofs/Spec grows; see DESIGN.md 6.2).
+Each exposed algorithm evaluates one of the identities below; each identity is proved to equal π(x) for all x
+(and all admissible parameters), hence all algorithms agree. The C++ evaluation of the individual terms is
+tied to these definitions by the correspondence streams (DESIGN.md 6.2).
 -/
-import PcProofs.Spec.Phi
+import PcProofs.Spec.All
 
 namespace Pc.C02
 open Pc.Spec
 
-/-- All LMO-type algorithms (lmo1..5, parallel LMO, Deleglise-Rivat, Gourdon's Phi0 + special leaves) compute
-    φ(x, a) as ordinary + special leaves for SOME cut-off and stop level; every such choice gives the same
-    value, namely φ(x, a). -/
+/-- Legendre (`pi_legendre`): a = π(⌊√x⌋) -/
+theorem legendre_correct (x : ℕ) (hx : 2 ≤ x) :
+    Nat.primeCounting x = phi x (Nat.primeCounting (Nat.sqrt x)) + Nat.primeCounting (Nat.sqrt x) - 1 :=
+  legendre rfl hx
+
+/-- Meissel (`pi_meissel`): a = π(⌊x^(1/3)⌋) -/
+theorem meissel_correct (x c : ℕ) (hx : 1 ≤ x) (h1 : c ^ 3 ≤ x) (h2 : x < (c + 1) ^ 3) :
+    Nat.primeCounting x = phi x (Nat.primeCounting c) + Nat.primeCounting c - 1 - P2 x (Nat.primeCounting c) :=
+  meissel_iroot3 hx h1 h2
+
+/-- Lehmer (`pi_lehmer`): a = π(⌊x^(1/4)⌋) -/
+theorem lehmer_correct (x y : ℕ) (hx : 1 ≤ x) (h1 : y ^ 4 ≤ x) (h2 : x < (y + 1) ^ 4) :
+    Nat.primeCounting x = phi x (Nat.primeCounting y) + Nat.primeCounting y - 1 - P2 x (Nat.primeCounting y)
+      - P3 x (Nat.primeCounting y) :=
+  lehmer_iroot4 hx h1 h2
+
+/-- LMO (`pi_lmo1..5`, `pi_lmo_parallel`): any y with y ≤ x < (y+1)³, any c ≤ π(y) -/
+theorem lmo_correct (x y c : ℕ) (hy : 1 ≤ y) (hyx : y ≤ x) (hy3 : x < (y + 1) ^ 3) (hc : c ≤ Nat.primeCounting y) :
+    (Nat.primeCounting x : ℤ) = S1 x y c + S2 x y c + Nat.primeCounting y - 1 - P2 x (Nat.primeCounting y) :=
+  pi_lmo hy hyx hy3 hc
+
+/-- Deleglise-Rivat (64- and 128-bit): the three leaf classes -/
+theorem deleglise_rivat_correct (x y c : ℕ) (hy : 1 ≤ y) (hy2 : y * y ≤ x) (hy3 : x < (y + 1) ^ 3)
+    (hc : c ≤ Nat.primeCounting y) :
+    (Nat.primeCounting x : ℤ) = S1 x y c + S2_trivial x y c + S2_easy x y c + S2_hard x y c
+      + Nat.primeCounting y - 1 - P2 x (Nat.primeCounting y) := pi_dr hy hy2 hy3 hc
+
+/-- Gourdon (64- and 128-bit) -/
+theorem gourdon_correct (x y z k c3 r4 : ℕ)
+    (hc3 : c3 ^ 3 ≤ x) (hc3' : x < (c3 + 1) ^ 3) (hr4 : r4 ^ 4 ≤ x) (hr4' : x < (r4 + 1) ^ 4)
+    (hy : c3 < y) (hy2 : y * y ≤ x) (hyz : y ≤ z) (hz : z * z ≤ x) (hk : k ≤ Nat.primeCounting r4) :
+    (Nat.primeCounting x : ℤ) =
+      A x y (xstar x y r4) c3 - B x y + C x y z k (xstar x y r4) + D x y z k (xstar x y r4) + Phi0 x y z k +
+        (Sigma0 x (Nat.primeCounting y) + Sigma1 (Nat.primeCounting y) (Nat.primeCounting c3) +
+          Sigma2 (Nat.primeCounting y) (Nat.primeCounting c3) (Nat.primeCounting (Nat.sqrt (x / y)))
+            (Nat.primeCounting (xstar x y r4)) +
+          Sigma3 (Nat.primeCounting c3) (Nat.primeCounting (xstar x y r4)) + Sigma4 x y (xstar x y r4) +
+          Sigma5 x y c3 + Sigma6 x (xstar x y r4) c3) :=
+  (GParams.of_xstar hc3 hc3' hr4 hr4' hy hy2 hyz hz hk).pi_gourdon
+
+/-- any two leaf decompositions of φ(x, a) (any cut-offs, any stop levels) agree -/
 theorem leaf_decompositions_agree (x a z₁ z₂ b₁ b₂ : ℕ) (h₁ : 1 ≤ z₁) (h₂ : 1 ≤ z₂) (hb₁ : b₁ ≤ a) (hb₂ : b₂ ≤ a) :
     ord x z₁ b₁ a + spec x z₁ b₁ a = ord x z₂ b₂ a + spec x z₂ b₂ a := by
   rw [← lmo_general x z₁ a h₁ (a - b₁) b₁ (by omega), ← lmo_general x z₂ a h₂ (a - b₂) b₂ (by omega)]
 
-/-- … and that common value is the Legendre sum itself -/
-theorem leaf_decomposition_eq_phi (x a z b : ℕ) (hz : 1 ≤ z) (hb : b ≤ a) :
-    ord x z b a + spec x z b a = (phi x a : ℤ) :=
-  (lmo_general x z a hz (a - b) b (by omega)).symm
+/-- consequence: Legendre's and Meissel's values agree (both are π(x)) -/
+theorem legendre_eq_meissel (x c : ℕ) (hx : 2 ≤ x) (h1 : c ^ 3 ≤ x) (h2 : x < (c + 1) ^ 3) :
+    phi x (Nat.primeCounting (Nat.sqrt x)) + Nat.primeCounting (Nat.sqrt x) - 1 =
+    phi x (Nat.primeCounting c) + Nat.primeCounting c - 1 - P2 x (Nat.primeCounting c) := by
+  rw [← legendre_correct x hx, ← meissel_correct x c (by omega) h1 h2]
 
-example : ord 1000 10 0 4 + spec 1000 10 0 4 = ord 1000 31 2 4 + spec 1000 31 2 4 :=
-  leaf_decompositions_agree 1000 4 10 31 0 2 (by norm_num) (by norm_num) (by norm_num) (by norm_num)
+example := legendre_eq_meissel 1000 10 (by norm_num) (by norm_num) (by norm_num)
+example := lmo_correct 1000 15 3 (by norm_num) (by norm_num) (by norm_num)
+  (by rw [show Nat.primeCounting 15 = 6 by decide]; norm_num)
 
 end Pc.C02
 
+#print axioms Pc.C02.legendre_correct
+#print axioms Pc.C02.meissel_correct
+#print axioms Pc.C02.lehmer_correct
+#print axioms Pc.C02.lmo_correct
+#print axioms Pc.C02.deleglise_rivat_correct
+#print axioms Pc.C02.gourdon_correct
 #print axioms Pc.C02.leaf_decompositions_agree
-#print axioms Pc.C02.leaf_decomposition_eq_phi
+#print axioms Pc.C02.legendre_eq_meissel
